@@ -45,11 +45,13 @@ prop( 'C16', [ 'T-RESERVED', 'D-DELEGATE' ],
       not_decided='path semantics over operation sequences (lookup/iteration/copy agreement is a dynamic, history-dependent claim).',
       technique='name-set comparison over class AST; delegation-shape checks' )
 
-prop( 'C19', [ 'M-EXTENT', 'M-TILE', 'M-BANK' ],
+prop( 'C19', [ 'M-EXTENT', 'M-TILE', 'M-BANK', 'M-LIMIT' ],
       decides='M-EXTENT: in merge\'s sorted sweep the running length update in the merge branch depends on its previous value '
               '(monotone join), so a nested/duplicate range cannot shrink the extent; M-TILE: shatter yields (address, taken) once, '
               'advances address and shrinks count by the same taken = min( count, limit ); M-BANK: the merge condition conjoins the '
-              'same-10000-bank test with the strict reach test, over sorted input.',
+              'same-10000-bank test with the strict reach test and nothing else (no condition may prevent overlapping ranges from merging), over sorted '
+              'input; M-LIMIT: merge passes its limit through unchanged to shatter( base, length, limit=limit ) and shatter deduces the per-bank default '
+              'from the address of the range it splits.',
       not_decided='disjointness/limit/reach arithmetic over all numeric inputs.',
       technique='def-use shape of the sweep loop (AST); guard conjunct classification' )
 
